@@ -152,9 +152,27 @@ def run(tier, seed):
     for a, b, c in tr[:1500 if tier == "quick" else 20000]:
         rec.case("triples", (spec_key(a), spec_key(b), spec_key(c)))
         check_triple(rec, "triples", 1, 3, a, b, c)
+    # at scale: long leaf fibers, and depth-2 trees with many rows (coordinates 0..n-1 at both levels)
+    for _ in range(40 if tier == "quick" else 500):
+        cnt = rnd.choice([12, 20, 40])
+        a = {c: rnd.choice([0, 1, 2]) for c in rnd.sample(range(cnt + 8), cnt)}
+        b = dict(a)
+        if rnd.random() < 0.7:       # differ in one place (or only in an explicit default)
+            c = rnd.choice(sorted(b))
+            b[c] = rnd.choice([0, 1, 2])
+            if rnd.random() < 0.3:
+                del b[c]
+        rec.case("scale", (1, spec_key(a), spec_key(b)))
+        check_single(rec, "scale", 1, cnt + 8, a, rnd.random() < 0.5)
+        check_pair(rec, "scale", 1, cnt + 8, a, b, rnd.random() < 0.5)
+        rows = rnd.choice([16, 20, 30])
+        t = {r: {c: rnd.choice([0, 1, 2]) for c in range(rows) if rnd.random() < 0.2} for r in range(rows) if rnd.random() < 0.9}
+        rec.case("scale", (2, spec_key(t)))
+        check_single(rec, "scale", 2, rows, t, True)
     return rec.result("every tree of depth 1 (3 coordinates) and 2 (2 coordinates) with explicit defaults and empty sub-fibers: isEmpty/countValues/"
                       "nonEmpty/deepcopy/reflexivity against independently extracted content; all depth-1 pairs, sampled depth-2 pairs, pairs differing "
-                      "in a single deep leaf at depth 2-3, in both directions, free-standing and as tensors with different shapes; triples for transitivity")
+                      "in a single deep leaf at depth 2-3, in both directions, free-standing and as tensors with different shapes; triples for transitivity; "
+                      "plus seeded random long leaf fibers (12-40 elements) and depth-2 trees with 16-30 rows")
 
 
 def replay(case):
